@@ -5,8 +5,10 @@ import (
 	"math/big"
 
 	errorsmod "cosmossdk.io/errors"
+	sdkmath "cosmossdk.io/math"
 	cpckeeper "github.com/EscanBE/evermint/v12/x/cpc/keeper"
 	sdk "github.com/cosmos/cosmos-sdk/types"
+	authtypes "github.com/cosmos/cosmos-sdk/x/auth/types"
 
 	"github.com/ethereum/go-ethereum/common"
 	"github.com/ethereum/go-ethereum/core"
@@ -151,6 +153,24 @@ func (k *Keeper) ApplyTransaction(ctx sdk.Context, tx *ethtypes.Transaction) (*e
 		k.ResetGasMeterAndConsumeGas(ctx, ctx.GasMeter().Limit())
 
 		return nil, errorsmod.Wrap(err, "failed to apply ethereum core message")
+	}
+
+	if k.IsSenderPaidTxFeeInAnteHandle(ctx) {
+		// The AnteHandle moved the fee for the whole gas limit to the fee collector and the state transition
+		// handed the unused part back to the sender as newly minted coins: take that part out of the
+		// fee collector, so that the refund does not increase the supply.
+		refunded := new(big.Int).Mul(new(big.Int).SetUint64(msg.Gas()-res.GasUsed), msg.GasPrice())
+		if refunded.Sign() > 0 {
+			coins := sdk.NewCoins(sdk.NewCoin(cfg.Params.EvmDenom, sdkmath.NewIntFromBigInt(refunded)))
+			err := k.bankKeeper.SendCoinsFromModuleToModule(ctx, authtypes.FeeCollectorName, evmtypes.ModuleName, coins)
+			if err == nil {
+				err = k.bankKeeper.BurnCoins(ctx, evmtypes.ModuleName, coins)
+			}
+			if err != nil {
+				k.ResetGasMeterAndConsumeGas(ctx, ctx.GasMeter().Limit())
+				return nil, errorsmod.Wrap(err, "failed to take the refunded gas fee out of the fee collector")
+			}
+		}
 	}
 
 	// reset the gas meter for current cosmos transaction
